@@ -128,6 +128,10 @@ def main(tier: str, seed: int) -> int:
             dict(kinds=['linear', 'conv', 'bn'], frozen=['none', 'all'],
                  max_leaves=3, max_depth=2, patterns=trees.PATTERNS[5:9],
                  max_pat=2, share=True, simulate=3000),
+            # a leaf with a parameter besides weight / bias, only that one frozen
+            dict(kinds=['linear', 'linx', 'act'],
+                 frozen=['none', 'part', 'extra'], max_leaves=2, max_depth=1,
+                 patterns=trees.PATTERNS[:2], max_pat=1, share=False),
             # independent patterns: inline flags of one do not leak to others
             dict(kinds=['linear', 'conv'], frozen=['none'], max_leaves=2,
                  max_depth=1, patterns=trees.CI_PATTERNS, max_pat=2,
@@ -150,6 +154,10 @@ def main(tier: str, seed: int) -> int:
             dict(kinds=['linear', 'conv', 'linsub'], frozen=['none'],
                  max_leaves=2, max_depth=1, patterns=trees.CI_PATTERNS,
                  max_pat=3, share=False),
+            dict(kinds=['linear', 'conv', 'linx', 'bn', 'act'],
+                 frozen=['none', 'part', 'all', 'extra'], max_leaves=3,
+                 max_depth=2, patterns=trees.PATTERNS[:4], max_pat=1,
+                 share=True, simulate=4000),
             dict(kinds=['linear', 'conv', 'linsub'], frozen=['none'],
                  max_leaves=3, max_depth=2, patterns=trees.CI_PATTERNS,
                  max_pat=3, share=False, simulate=4000),
